@@ -117,7 +117,8 @@ def kappaLimit : Float := 1.0e12 * 1.000001
 /-- envelope constant of the p-th central / standardized moment: `2p²` for the orders of property C04
     (N ≤ 10, checked up to 12); beyond that - orders the property does not quantify over, exercised only to
     reach code paths - the accumulated binomial corrections grow faster and `p³/2` is allowed -/
-def highOrder (p : Nat) : Float := if p ≤ 12 then 2 * Float.ofNat (p * p) else Float.ofNat (p * p * p) / 2
+def highOrder (p : Nat) : Float :=
+  if p ≤ 12 then 2 * Float.ofNat (p * p) else if p ≤ 16 then Float.ofNat (p * p * p) / 2 else Float.ofNat (p * p * p * p) / 8
 
 /-- statistics of one sample (Mean .. Kurtosis, define_moments!) -/
 def momTarget (e : Exact) (env : Env) (name : String) : Option Target := do
